@@ -141,9 +141,28 @@ impl ProgExec {
     }
 }
 
+thread_local! {
+    /// errors formatted with Display so far in this run (exact float formatting costs ~50 µs; a history with
+    /// 100 000 rejected calls would spend its whole budget there)
+    static DISPLAYED: std::cell::Cell<u32> = const { std::cell::Cell::new(0) };
+}
+const DISPLAY_PER_RUN: u32 = 512;
+
+pub fn reset_display_budget() {
+    DISPLAYED.with(|c| c.set(0));
+}
+
 fn err_to_res(e: &MuxerError) -> (Res, usize) {
     let (ev, k) = classify(e);
     let d = format!("{:?}", e);
+    let n = DISPLAYED.with(|c| {
+        let n = c.get();
+        c.set(n.saturating_add(1));
+        n
+    });
+    if n >= DISPLAY_PER_RUN {
+        return (Res::Err { ev, io_kind: k.map(|k| format!("{:?}", k)), debug: d }, 0);
+    }
     let a = format!("{}", e);
     let b = format!("{:#}", e);
     let mut extra = 0;
@@ -351,6 +370,7 @@ pub fn run_prog(case: &ProgCase) -> ProgExec {
 }
 
 pub fn run_prog_opts(case: &ProgCase, counting_only: bool) -> ProgExec {
+    reset_display_budget();
     install_panic_hook();
     let (sink, log) = SimSink::new(case.faults.clone());
     log.lock().unwrap().counting_only = counting_only;
